@@ -56,7 +56,7 @@ def zeroJoiner (o : Obs) : Bool := !o.ran && o.val.isNone && o.err.isNone && !o.
 
 /-- a call that can only have led a flight whose lookup failed (cancelled context): no visible event between its
 invocation and its return. -/
-def lkLeader (o : Obs) : Bool := o.lkerr && o.cx = 2 && !o.ran
+def lkLeader (o : Obs) : Bool := o.lkerr && o.deadCtx && !o.ran
 
 /-! ### SingleFlight -/
 namespace SFx
@@ -293,13 +293,15 @@ releases the wait group; the joiners enter first. -/
 def forceDelete (line : Nat) (p : Tid) (pid : Nat) : M Unit := do
   let st ← get
   let leaderIsLk : Bool := match st.cur.lookup p with | some q => lkLeader q | none => false
+  let leaderNil : Bool := st.s.cfg.asrt && (match st.cur.lookup p with | some q => q.nilv && q.ran | none => false)
   if (← pcOf p) = .d0 ∨ (← pcOf p) = .g6 then
     for (g, o) in st.cur do
       -- (a joiner that panicked / got the nil value joins the first panicking flight that is deleted while it is invoked)
       if ((← pcOf g) = .l0 ∨ (← pcOf g) = .p0) ∧ !o.ran ∧ g ≠ p ∧
           ((source o = some pid ∧ !o.lkerr) ∨ ((o.panicked ∨ zeroJoiner o) ∧ st.s.pn p ∧ st.s.key g = st.s.key p)
+            ∨ (o.panicked ∧ leaderNil ∧ st.s.key g = st.s.key p)
             -- (a call with a cancelled context of its own is not pulled in: it can lead a flight of its own later)
-            ∨ (o.lkerr ∧ o.cx ≠ 2 ∧ leaderIsLk ∧ st.s.key g = st.s.key p)) then
+            ∨ (o.lkerr ∧ !o.deadCtx ∧ leaderIsLk ∧ st.s.key g = st.s.key p)) then
         preMiss line g
         advs line g [.l1, .w0, .w1]
     if (← pcOf p) = .g6 then advs line p [.g7, .g8, .m2, .d0]
@@ -352,11 +354,11 @@ def onEvent (e : Ev) : M Unit := do
     let st ← get
     let urgent := st.cur.filter fun (g', q) => g' ≠ g && q.lkerr && !q.ran && q.key = o.key && st.s.pc g' = .l0 && q.ret < fe
     for (g', q) in urgent do
-      if q.cx = 2 && (← pcOf g') = .l0 then
+      if q.deadCtx && (← pcOf g') = .l0 then
         failLookupFlight ln g'
         forceDelete ln g' q.id
     let st ← get
-    if urgent.any (fun (g', q) => q.cx ≠ 2 && st.s.pc g' = .l0) then
+    if urgent.any (fun (g', q) => !q.deadCtx && st.s.pc g' = .l0) then
       match earliest (← lkCandidates o.key) with
       | some (p, q) =>
         failLookupFlight ln p
@@ -375,7 +377,11 @@ def onEvent (e : Ev) : M Unit := do
       -- create succeeded (or, `doTake`: the query reported not-found and the placeholder is what gets stored: `ek = 5`);
       -- the store is placed lazily (forceDelete)
       if o.serr then tag "rm-model-not-found-placeholder-stored-as-instance"
-      adv ln g (o.id + 1) .g6
+      -- (a loader that returned (nil, nil) under a user that asserts the type: the nil instance `RM.nilInst`)
+      if o.nilv && (← get).s.cfg.asrt then
+        tag "rm-model-nil-instance-stored"
+        adv ln g RM.nilInst .g6
+      else adv ln g (o.id + 1) .g6
   | .ret =>
     let mut zeroOk := false
     if o.ran then
@@ -399,7 +405,7 @@ def onEvent (e : Ev) : M Unit := do
             else forceDelete ln p pid
           | none => pure ()
         if (← pcOf g) = .l0 then
-          if o.cx = 2 then
+          if o.deadCtx then
             failLookupFlight ln g
           else
             match earliest ((← lkCandidates o.key).filter (·.1 ≠ g)) with
@@ -416,6 +422,7 @@ def onEvent (e : Ev) : M Unit := do
           let explains : Bool := source o == some pid
             || (o.val.isSome && (match po with | some q => !q.ran && !lkLeader q | none => false))
             || ((o.panicked || zeroJoiner o) && (match po with | some q => q.spanic | none => false))
+            || (o.panicked && (match po with | some q => q.nilv && q.ran | none => false))
           if explains then
             tag "rm-model-joined-flight"
             advs ln g [.l1, .w0, .w1]
@@ -477,6 +484,7 @@ def cfgOfVia (via : String) : Option Cfg :=
   if via = "" then some .getResource
   else if via = "collection.Cache.Take" then some .cacheTake
   else if via = "cacheNode.Take" then some .doTake
+  else if via = "sqlc.QueryRow" then some .doTake      -- CachedConn.QueryRow(Ctx) → cache.TakeCtx → cacheNode.doTake
   else none
 
 def explain (mode via : String) (inj : List (Nat × Nat)) (h : List Obs) : Except Err (Nat × List String) :=
